@@ -1,0 +1,42 @@
+//go:build verif
+
+package postgresql
+
+// Verification hooks for the C04 check (build tag `verif` only, add-only): a read-only view of the
+// queue of pending queries. Nothing here changes behaviour.
+
+import (
+	"reflect"
+	"strconv"
+	"strings"
+)
+
+// VerifPendingQueries describes the pending-query queue front to back: "sync" for a sync point,
+// "simple:<query>" for a simple query, "ext:<statement text>:<number of result format codes of the Bind>" for an Execute
+// (the harness numbers its Binds by that count; parameter values are zeroized when a portal is replaced).
+func (proxy *PgProxy) VerifPendingQueries() []string {
+	list := proxy.protocolState.pendingQueryPackets
+	list.mutex.RLock()
+	defer list.mutex.RUnlock()
+	out := []string{}
+	l, ok := list.lists[reflect.TypeOf(queryPacket{})]
+	if !ok {
+		return out
+	}
+	for e := l.Front(); e != nil; e = e.Next() {
+		q := e.Value.(queryPacket)
+		switch {
+		case q.syncPoint:
+			out = append(out, "sync")
+		case q.executePacket != nil:
+			formats := 0
+			if q.bindPacket != nil {
+				formats = len(q.bindPacket.resultFormats)
+			}
+			out = append(out, strings.Join([]string{"ext", q.GetSQLQuery(), strconv.Itoa(formats)}, ":"))
+		default:
+			out = append(out, "simple:"+q.simpleQueryPacket)
+		}
+	}
+	return out
+}
